@@ -270,6 +270,12 @@ class C14(Property):
             # the first stage (Model/CompEval.v: which hints every parser pushes) + the second + the renderer: the text of
             # the completion output is compared byte for byte
             mc = model.get(c.id)
+            pm = model.get(c.id + "_t")
+            if pm is not None and pm[:2] == ["PREM", "1"]:
+                dist["cases under C14_request_never_value_or_error (premises evaluated by the model)"] = \
+                    dist.get("cases under C14_request_never_value_or_error (premises evaluated by the model)", 0) + 1
+                if mc and mc[0] in ("OK", "STDERR"):
+                    out.append(Finding("model", c, "the extracted model contradicts C14_request_never_value_or_error: %s" % (mc[:2],)))
             if mc != ic:
                 out.append(Finding("disagree", c, "completion output: model %r vs implementation %r" % (mc, ic)))
             else:
